@@ -52,7 +52,7 @@ func controllerMessage(r *prng.R, kind string, o MsgOpt, try int) *rec.Rec {
 		m.SetL("elements", []*rec.Rec{rec.New("hello_versionbitmap").SetB("bitmaps", []byte{0, 0, 0, 0x12})})
 		if r.Chance(1, 2) { // further version-bitmap elements of 1..3 words appended to the constructor's default one
 			for n := r.Pick(1, 1, 2, 3); n > 0; n-- {
-				m.Add("elements", rec.New("hello_versionbitmap").SetB("bitmaps", r.Bytes(4*r.Pick(1, 2, 2, 3))))
+				m.Add("elements", rec.New("hello_versionbitmap").SetB("bitmaps", r.Bytes(4*r.Pick(1, 2, 2, 3, 4, 6, 7, 8, 15))))
 			}
 			if r.Bool() { // and the default element itself with more words
 				m.List("elements")[0].SetB("bitmaps", append([]byte{0, 0, 0, 0x12}, r.Bytes(4*r.Pick(1, 2))...))
@@ -234,7 +234,7 @@ func switchMessage(r *prng.R, kind string) *rec.Rec {
 		m := rec.New("hello").Set("xid", xid).SetL("elements", nil)
 		ne := r.Pick(0, 1, 1, 1, 2)
 		for i := 0; i < ne; i++ {
-			nb := r.Pick(1, 1, 2, 3)
+			nb := r.Pick(1, 1, 2, 3, 4, 6, 7, 8, 15)
 			m.Add("elements", rec.New("hello_versionbitmap").SetB("bitmaps", r.Bytes(4*nb)))
 		}
 		return m
